@@ -4,6 +4,7 @@ import (
 	"bytes"
 
 	"github.com/cockroachdb/pebble/internal/base"
+	"github.com/cockroachdb/pebble/internal/keyspan"
 	sym "github.com/cockroachdb/pebble/internal/verifsym"
 )
 
@@ -49,8 +50,12 @@ type hState struct {
 // hFold applies version e (if visible at snapshot s) on top of st. No branch
 // depends on symbolic data: kinds, sequence numbers and the snapshot may all
 // be symbolic.
-func hFold(st hState, e hEntry, s base.SeqNum) hState {
+func hFold(st hState, e hEntry, s base.SeqNum, tombs []hTomb) hState {
 	vis := e.seq < s
+	for _, t := range tombs {
+		// a visible range tombstone hides every older version of a key it covers
+		vis = sym.And(vis, !sym.And(sym.And(t.seq < s, e.seq < t.seq), sym.And(t.start <= e.key, e.key < t.end)))
+	}
 	isSet := sym.Or(e.kind == hSet, e.kind == hSetDel)
 	isMerge := e.kind == hMerge
 	np := sym.Or(isSet, isMerge)
@@ -61,13 +66,31 @@ func hFold(st hState, e hEntry, s base.SeqNum) hState {
 }
 
 // hViewOf folds the versions of key (given newest first) visible at s.
-func hViewOf(es []hEntry, key byte, s base.SeqNum, st hState) hState {
+func hViewOf(es []hEntry, key byte, s base.SeqNum, st hState, tombs []hTomb) hState {
 	for i := len(es) - 1; i >= 0; i-- {
 		if es[i].key == key {
-			st = hFold(st, es[i], s)
+			st = hFold(st, es[i], s, tombs)
 		}
 	}
 	return st
+}
+
+// hTomb is a range tombstone [start, end) at seq.
+type hTomb struct {
+	start, end byte
+	seq        base.SeqNum
+}
+
+func hTombIter(ts []hTomb) keyspan.FragmentIterator {
+	if len(ts) == 0 {
+		return nil
+	}
+	var spans []keyspan.Span
+	for _, t := range ts { // non-overlapping, ascending (one tombstone, or the fragments the first compaction emitted)
+		spans = append(spans, keyspan.Span{Start: []byte{t.start}, End: []byte{t.end},
+			Keys: []keyspan.Key{{Trailer: base.MakeTrailer(t.seq, base.InternalKeyKindRangeDelete)}}})
+	}
+	return keyspan.NewIter(base.DefaultComparer.Compare, spans)
 }
 
 func hKVs(es []hEntry) []base.InternalKV {
@@ -122,10 +145,20 @@ func hHistory(na, nb int) []hEntry {
 	return F
 }
 
-func hCompactOnce(it *Iter, bottommost bool, lo, hi base.SeqNum) []hEntry {
+func hCompactOnce(it *Iter, bottommost bool, lo, hi base.SeqNum) ([]hEntry, []hTomb) {
 	var out []hEntry
+	var tombs []hTomb
 	var prevKey base.InternalKey
 	for kv := it.First(); kv != nil; kv = it.Next() {
+		if kv.Kind() == base.InternalKeyKindRangeDelete {
+			sp := it.Span()
+			sym.Assert(len(sp.Start) == 1 && len(sp.End) == 1 && len(sp.Keys) > 0, "emitted-rangedel-well-formed")
+			for _, k := range sp.Keys {
+				sym.Assert(k.Kind() == base.InternalKeyKindRangeDelete, "emitted-rangedel-kind")
+				tombs = append(tombs, hTomb{sp.Start[0], sp.End[0], k.SeqNum()})
+			}
+			continue
+		}
 		v, _, err := kv.Value(nil)
 		sym.Assert(err == nil, "value")
 		if len(out) > 0 {
@@ -142,14 +175,16 @@ func hCompactOnce(it *Iter, bottommost bool, lo, hi base.SeqNum) []hEntry {
 		out = append(out, e)
 	}
 	sym.Assert(it.Error() == nil, "no-error")
-	return out
+	return out, tombs
 }
 
 // hPointStripes: compaction of the upper part (seq > cut) of a key history
 // leaves every snapshot's view of (output ∪ remainder) equal to the view of
 // the full history; optionally a second compaction takes the first output
 // together with the versions above cut2.
-func hPointStripes(na, nb, maxSnaps int, twoStep bool) {
+func hPointStripes(na, nb, maxSnaps int, twoStep bool) { hStripes(na, nb, maxSnaps, twoStep, false) }
+
+func hStripes(na, nb, maxSnaps int, twoStep, withRangeDel bool) {
 	F := hHistory(na, nb)
 	cut := base.SeqNum(sym.U16("cut")) // versions with seq > cut are compacted
 	sym.Assume(cut <= 257)
@@ -167,9 +202,31 @@ func hPointStripes(na, nb, maxSnaps int, twoStep bool) {
 		}
 		snaps = append(snaps, s)
 	}
+	// optionally one range tombstone over key a, or over both keys, at its own sequence number
+	var rd []hTomb
+	if withRangeDel && sym.Bool("rangedel") {
+		t := hTomb{start: 'a', end: 'b', seq: base.SeqNum(sym.U8("rangedel-seq")) + 1}
+		if nb > 0 {
+			t.end += byte(sym.Choose("rangedel-covers-b", 2))
+		}
+		for _, e := range F {
+			sym.Assume(e.seq != t.seq)
+		}
+		rd = append(rd, t)
+	}
 	var in, R, newer []hEntry
+	var inT, RT, newerT []hTomb
 	remBelow := map[byte]bool{}
 	inputHas := map[byte]bool{}
+	for _, t := range rd {
+		if t.seq > cut2 {
+			newerT = append(newerT, t)
+		} else if t.seq > cut {
+			inT = append(inT, t)
+		} else {
+			RT = append(RT, t)
+		}
+	}
 	for _, e := range F {
 		if e.seq > cut2 {
 			newer = append(newer, e)
@@ -183,11 +240,15 @@ func hPointStripes(na, nb, maxSnaps int, twoStep bool) {
 		}
 	}
 	bottommost := false
-	if len(R) == 0 {
+	if len(R) == 0 && len(RT) == 0 {
 		bottommost = sym.Bool("bottommost")
 	}
 	elision := NoTombstoneElision()
-	if sym.Bool("elide") {
+	if bottommost {
+		// tableCompaction.isBottommostDataLayer sets the flag only when the tombstone elision
+		// elides everything (no in-use ranges below)
+		elision = ElideTombstonesOutsideOf(nil)
+	} else if sym.Bool("elide") {
 		var inUse []base.UserKeyBounds
 		for k := byte('a'); k <= 'b'; k++ {
 			// in-use ranges cover every key with versions below the cut (what SetupTombstoneElision guarantees)
@@ -209,7 +270,7 @@ func hPointStripes(na, nb, maxSnaps int, twoStep bool) {
 	if twoStep {
 		hi = cut2
 	}
-	out := hCompactOnce(NewIter(cfg, base.NewFakeIter(base.DefaultComparer, hKVs(in)), nil, nil), bottommost, cut, hi)
+	out, outT := hCompactOnce(NewIter(cfg, base.NewFakeIter(base.DefaultComparer, hKVs(in)), hTombIter(inT), nil), bottommost, cut, hi)
 	if twoStep {
 		// second compaction: the newer versions and the first output (all of which lie at or
 		// below cut2, or are zeroed), same remainder
@@ -226,14 +287,15 @@ func hPointStripes(na, nb, maxSnaps int, twoStep bool) {
 				}
 			}
 		}
-		out = hCompactOnce(NewIter(cfg, base.NewFakeIter(base.DefaultComparer, hKVs(all)), nil, nil), bottommost, cut, 257)
+		out, outT = hCompactOnce(NewIter(cfg, base.NewFakeIter(base.DefaultComparer, hKVs(all)), hTombIter(append(newerT, outT...)), nil), bottommost, cut, 257)
 	}
 	views := append(append(Snapshots(nil), snaps...), base.SeqNumMax)
 	for _, s := range views {
 		for k := byte('a'); k <= 'b'; k++ {
-			want := hViewOf(F, k, s, hState{})
+			want := hViewOf(F, k, s, hState{}, rd)
 			// output versions are all newer than the remainder (or zeroed, and then nothing remains)
-			got := hViewOf(out, k, s, hViewOf(R, k, s, hState{}))
+			gotT := append(append([]hTomb(nil), outT...), RT...)
+			got := hViewOf(out, k, s, hViewOf(R, k, s, hState{}, gotT), gotT)
 			sym.Assert(want.present == got.present, "view-preserved-presence")
 			sym.Assert(sym.Implies(want.present, sym.And(want.packed == got.packed, want.n == got.n)), "view-preserved-value")
 		}
@@ -251,6 +313,12 @@ func VerifHarness_C17_TwoKeys() { hPointStripes(2, 1, 1, false) }
 // what it takes to expose a SET that should have become SETWITHDEL: SINGLEDEL SET DEL | SET.)
 func VerifHarness_C17_TwoStep() { hPointStripes(4, 0, 0, true) }
 
+// One key (plus an optional single version of b), a range tombstone anywhere in the history.
+func VerifHarness_C17_RangeDel() { hStripes(2, 0, 1, false, true) }
+
+func VerifHarness_C17_RangeDel_Thorough()     { hStripes(2, 1, 2, false, true) }
+func VerifHarness_C17_RangeDel3_Thorough()    { hStripes(3, 0, 1, false, true) }
+func VerifHarness_C17_RangeDelTwoStep_Thorough() { hStripes(3, 0, 1, true, true) }
 func VerifHarness_C17_PointStripes_Thorough() { hPointStripes(4, 0, 2, false) }
 func VerifHarness_C17_TwoKeys_Thorough()      { hPointStripes(3, 2, 1, false) }
 func VerifHarness_C17_TwoStepSnap_Thorough()  { hPointStripes(3, 1, 1, true) }
